@@ -99,6 +99,9 @@ Fixpoint encode (v : value) : list N :=
   | VEnum _ idx _ _ fs => le 4 idx ++ flat_map (fun f => encode (snd f)) fs
   end.
 
+(** genuine bytes *)
+Definition bytes_ok (bs : list N) : Prop := Forall (fun b => b < 256) bs.
+
 Fixpoint take (n : nat) (bs : list N) : option (list N * list N) :=
   match n with
   | O => Some ([], bs)
